@@ -321,6 +321,68 @@ func (p *bprover) findLoopArg(l *natLoop) (loopArg, []string) {
 			return arg, nil
 		}
 	}
+	// ranking function taken from a stay condition: V >= 0 while the loop
+	// runs and V decreases by at least one on every back edge
+	for _, f := range stay {
+		if f.ne || len(f.e.t) == 0 {
+			continue
+		}
+		V := f.e
+		usable := true
+		var headAtoms []atom
+		for a := range V.t {
+			if pb, _, isPhi := phiLike(a.v); isPhi && pb == h {
+				headAtoms = append(headAtoms, a)
+				continue
+			}
+			one := blin{t: map[atom]int64{a: 1}}
+			if !p.loopInvariant(l, one) {
+				usable = false
+			}
+		}
+		if !usable || len(headAtoms) == 0 {
+			continue
+		}
+		decreases := true
+		for pi, pr := range h.Preds {
+			if !h.Dominates(pr) {
+				continue
+			}
+			V2 := V
+			okSub := true
+			for _, a := range headAtoms {
+				_, edges, _ := phiLike(a.v)
+				var by blin
+				switch a.k {
+				case aLen:
+					by = p.lenOf(edges[pi])
+				case aVal:
+					by = p.linOf(edges[pi])
+				default:
+					okSub = false
+				}
+				if !okSub {
+					break
+				}
+				V2, okSub = V2.subst(a, by)
+				if !okSub {
+					break
+				}
+			}
+			if !okSub {
+				decreases = false
+				break
+			}
+			goal, ok := V.sub(V2)
+			if !ok || !p.prove(p.edgeFacts(pr, h), goal.addc(-1), pr, 3) {
+				decreases = false
+				break
+			}
+		}
+		if decreases {
+			return loopArg{kind: "variant", detail: fmt.Sprintf("%s is non-negative while the loop runs and decreases on every iteration", p.linStr(V)), trips: V.addc(1), hasT: true}, nil
+		}
+	}
 	return loopArg{}, notes
 }
 
@@ -529,6 +591,12 @@ const expansionCap = int64(1) << 20
 // RunLoopTerm reports one obligation per loop (loopterm) and one per
 // expansion loop (loopwork).
 func RunLoopTerm(w *World, r *Report, br *boundsRun, fns []*ssa.Function) {
+	runLoopTerm(w, r, br, fns, true)
+	r.Floor("loopterm", 150)
+}
+
+// runLoopTerm: withWork adds the expansion-loop rule (decoders).
+func runLoopTerm(w *World, r *Report, br *boundsRun, fns []*ssa.Function, withWork bool) {
 	for _, fn := range fns {
 		loops := naturalLoops(fn)
 		if len(loops) == 0 {
@@ -548,7 +616,7 @@ func RunLoopTerm(w *World, r *Report, br *boundsRun, fns []*ssa.Function) {
 				continue
 			}
 			r.OK("loopterm", key, pos, arg.kind+": "+arg.detail)
-			if p.consumesInput(l, arg) {
+			if !withWork || p.consumesInput(l, arg) {
 				continue
 			}
 			// expansion loop: trip count bounded by a constant
@@ -657,7 +725,6 @@ func RunLoopTerm(w *World, r *Report, br *boundsRun, fns []*ssa.Function) {
 			}
 		}
 	}
-	r.Floor("loopterm", 150)
 }
 
 // dataDerived: the expression depends on values loaded from slices (input
